@@ -26,6 +26,10 @@ def _is_symtab(v):
     return isinstance(v, DictV) and any(k == Const("$symtab") for k, _ in v.items)
 
 
+def _is_annotations(v):
+    return isinstance(v, DictV) and any(k == Const("$annotations") for k, _ in v.items)
+
+
 def canon(v):
     """Canonical form of result/argument terms (string building, bookkeeping wrappers)."""
     if isinstance(v, App):
@@ -122,13 +126,24 @@ def canon_events(trace, ref=False):
             out.append(e)
         elif k == "store":
             out.append(("store", e[1], canon(e[2])))
+        elif k == "annotate":
+            out.append(("annotate", e[1], canon(e[2])))
         elif k == "setitem":
             base, idx, val = e[1], e[2], e[3]
-            if _is_symtab(base):
+            if _is_annotations(base):
+                out.append(("annotate", idx.v if isinstance(idx, Const) else canon(idx), canon(val)))
+            elif _is_symtab(base) and idx == Const("__annotations__"):
+                pass  # creation of the (empty) annotations dictionary is not an observable of the probes
+            elif _is_symtab(base):
                 name = idx.v if isinstance(idx, Const) else canon(idx)
                 out.append(("store", name, canon(val)))
             elif ref or (_mentions_user(base) and not isinstance(base, (DictV, ListV))):
                 out.append(("setitem", canon(base), canon(idx), canon(val)))
+            elif isinstance(base, DictV) and _mentions_user(idx):
+                out.append(("hash", canon(idx)))  # a script value used as a key of a dictionary being built: it is hashed here (and may be unhashable)
+        elif k == "hash":
+            if _mentions_user(e[1]):
+                out.append(("hash", canon(e[1])))
         elif k == "getitem":
             base, idx = e[1], e[2]
             if ref or (_mentions_user(base) and not isinstance(base, (DictV, ListV))):
@@ -153,6 +168,8 @@ def canon_events(trace, ref=False):
                             tuple(("**" if kk.startswith("**") else kk, canon(vv)) for kk, vv in e[3])))
             elif label in ("loopvar_scope_save", "loopvar_scope_restore", "ast_attribute_collapse", "get_names"):
                 continue
+            elif isinstance(label, str) and label.endswith(".keys"):
+                continue  # the mapping protocol query made for a `**` operand (CPython's DICT_MERGE asks for keys() as well)
             else:
                 out.append(("extcall", label))
         elif k == "ast_mutation":
@@ -160,6 +177,22 @@ def canon_events(trace, ref=False):
         elif k == "raise_from":
             out.append(("raise_from", canon(e[1]), canon(e[2])))
     return tuple(out)
+
+
+def is_argcheck(cfg):
+    """Handler paths that reproduce Python's own checks of a `**` operand for opaque values: not a mapping / duplicate keyword -> TypeError.
+    (For literal operands the reference raises these errors itself and the paths are compared.)"""
+    exc = cfg.env.get("$exc")
+    if getattr(exc, "cls", "") != "TypeError":
+        return False
+    for atom, val in cfg.assume:
+        if isinstance(atom, tuple) and len(atom) == 2 and isinstance(atom[1], App):
+            a = atom[1]
+            if a.op == "hasattr" and len(a.args) == 2 and a.args[1] == Const("keys") and _mentions_user(a.args[0]) and not val:
+                return True
+            if a.op in ("bitand", "ibitand") and ".keys" in repr(a) and val:
+                return True
+    return False
 
 
 def is_extension(cfg):
@@ -232,6 +265,8 @@ def path_set(out: Out, ref=False, with_result=True):
                 continue
             if kind == "raise":
                 exc = c.env.get("$exc")
+                if not ref and is_argcheck(c):
+                    continue
                 res = ("raise", getattr(exc, "cls", "?"), getattr(exc, "origin", "") if getattr(exc, "cls", "") == "Exception" else "")
             elif kind == "return" and with_result:
                 res = ("value", canon(c.env.get("$ret", NONE)))
